@@ -78,7 +78,7 @@ func c16Schedules(k int) [][]int {
 }
 
 func c16Steer(c *lab.Ctx) {
-	c.Rule("steered: every interleaving (load/store granularity, via hook points) of 2 and 3 concurrent Set/Clear operations on different condition bits of one address x every initial word of those bits; distinct = (ops, initial word, schedule)")
+	c.Rule("steered: every interleaving (load/store granularity, via hook points) of 2 and 3 concurrent Set/Clear operations on different condition bits of one address x every initial word of those bits, and of 2 concurrent operations on the SAME condition (other conditions must not change, the result must be a serial order); distinct = (ops, initial word, schedule)")
 	flags := []api.HealthFlag{api.FAILED_ACTIVE_HC, api.FAILED_OUTLIER_CHECK, api.HealthFlag(0x04)}
 	type gate struct {
 		arrived chan struct{}
@@ -250,6 +250,156 @@ func c16Steer(c *lab.Ctx) {
 			}
 		}
 	}
+	// ---- two writers of the SAME condition (health checkers of two clusters sharing an address, re-created host objects): the
+	// operations are idempotent per condition, so whatever the interleaving the other conditions must be exactly what they were
+	// ("never loses or invents another") and the written condition must end as one of the two serial orders allows
+	type qgate struct {
+		arrived, open chan struct{}
+	}
+	var qmu sync.Mutex
+	queues := map[string][]*qgate{}
+	cursor := map[string]int{}
+	hq := func(name string, id uint64) {
+		key := fmt.Sprintf("%s/%d", name, id)
+		qmu.Lock()
+		q, i := queues[key], cursor[key]
+		if i >= len(q) {
+			qmu.Unlock()
+			return // a retry of an operation that was already steered once, or no steering for this key
+		}
+		cursor[key] = i + 1
+		qmu.Unlock()
+		close(q[i].arrived)
+		<-q[i].open
+	}
+	verifhook.Set("cluster.SetHealthFlag.loaded", hq)
+	verifhook.Set("cluster.ClearHealthFlag.loaded", hq)
+	sameCases := 0
+	for fi := 0; fi < 3; fi++ {
+		f := flags[fi]
+		for m := 0; m < 4; m++ {
+			ops := []c16op{{m&1 != 0, f}, {m&2 != 0, f}}
+			for init := uint64(0); init < 8; init++ {
+				for _, sched := range s2 {
+					caseNo++
+					sameCases++
+					desc := fmt.Sprintf("case=%d same-condition ops=%v init=0x%x sched=%v", caseNo, ops, init, sched)
+					c.Case("%s", desc)
+					qmu.Lock()
+					queues, cursor = map[string][]*qgate{}, map[string]int{}
+					qmu.Unlock()
+					host := c16Host("steer-same")
+					for _, fl := range flags {
+						if init&uint64(fl) != 0 {
+							host.SetHealthFlag(fl)
+						}
+					}
+					if uint64(host.HealthFlag()) != init {
+						c.Inconclusive("initial word not established")
+						continue
+					}
+					gs := make([]*qgate, 2)
+					done := []chan struct{}{make(chan struct{}), make(chan struct{})}
+					qmu.Lock()
+					for i, o := range ops {
+						gs[i] = &qgate{arrived: make(chan struct{}), open: make(chan struct{})}
+						name := "cluster.ClearHealthFlag.loaded"
+						if o.set {
+							name = "cluster.SetHealthFlag.loaded"
+						}
+						key := fmt.Sprintf("%s/%d", name, uint64(o.flag))
+						queues[key] = append(queues[key], gs[i])
+					}
+					qmu.Unlock()
+					// started[i] / finished[i]: position in the schedule, for the real-time order of the two operations
+					started, finished := []int{-1, -1}, []int{-1, -1}
+					seen := []int{0, 0}
+					okc := true
+					// gates are handed out in arrival order per (operation kind, condition): when both operations are of the same
+					// kind the k-th started takes the k-th gate, so the gate of schedule slot t is the one its start order gives
+					order := []int{}
+					gateOf := map[int]*qgate{}
+					for pos, t := range sched {
+						seen[t]++
+						if seen[t] == 1 {
+							started[t] = pos
+							order = append(order, t)
+							g := gs[t]
+							if ops[0].set == ops[1].set {
+								g = gs[len(order)-1]
+							}
+							gateOf[t] = g
+							o := ops[t]
+							go func(i int) {
+								if o.set {
+									host.SetHealthFlag(o.flag)
+								} else {
+									host.ClearHealthFlag(o.flag)
+								}
+								close(done[i])
+							}(t)
+							select {
+							case <-g.arrived:
+							case <-done[t]:
+								c.Count("hook-not-reached", 1)
+							case <-time.After(5 * time.Second):
+								c.Inconclusive("hook not reached within watchdog")
+								okc = false
+							}
+						} else {
+							finished[t] = pos
+							close(gateOf[t].open)
+							select {
+							case <-done[t]:
+							case <-time.After(5 * time.Second):
+								c.Inconclusive("operation did not complete within watchdog")
+								okc = false
+							}
+							w := uint64(host.HealthFlag())
+							if (w^init)&^uint64(f) != 0 {
+								c.Violation("bitset-register", "C16/other-condition-changed/steered-same-condition",
+									fmt.Sprintf("two writers of condition 0x%x: after %v completed the OTHER conditions changed from 0x%x to 0x%x (word=0x%x) — %s", uint64(f), ops[t], init&^uint64(f), w&^uint64(f), w, desc),
+									map[string]interface{}{"case": caseNo, "ops": fmt.Sprint(ops), "init": init, "schedule": sched, "word": w})
+								okc = false
+							}
+							if host.Health() != (host.HealthFlag() == 0) {
+								c.Violation("health-iff-no-flag", "C16/health-ne-flags", desc, nil)
+							}
+						}
+						if !okc {
+							break
+						}
+					}
+					for _, g := range gs {
+						select {
+						case <-g.open:
+						default:
+							close(g.open)
+						}
+					}
+					if okc {
+						w := uint64(host.HealthFlag())
+						// serial orders allowed by real time: A before B unless B finished before A started, and vice versa
+						allowed := map[bool]bool{}
+						if !(finished[1] < started[0]) {
+							allowed[ops[1].set] = true // order A,B: B's effect last
+						}
+						if !(finished[0] < started[1]) {
+							allowed[ops[0].set] = true // order B,A
+						}
+						if (w^init)&^uint64(f) != 0 || !allowed[w&uint64(f) != 0] {
+							c.Violation("bitset-register", "C16/not-linearizable/steered-same-condition",
+								fmt.Sprintf("two writers of condition 0x%x: final word 0x%x from 0x%x is not the result of any serial order of %v — %s", uint64(f), w, init, ops, desc),
+								map[string]interface{}{"case": caseNo, "ops": fmt.Sprint(ops), "init": init, "schedule": sched, "word": w})
+						}
+					}
+					c.Eval(1)
+					c.Distinct(fmt.Sprintf("same|%v|%x|%v", ops, init, sched))
+				}
+			}
+		}
+	}
+	c.Count("same-condition-cases", int64(sameCases))
 	c.Exhaustive(true)
 	reached := verifhook.Count("cluster.SetHealthFlag.loaded") + verifhook.Count("cluster.ClearHealthFlag.loaded")
 	c.Count("hook-arrivals", int64(reached))
